@@ -131,6 +131,22 @@ impl Stats {
         }
         bump(&mut self.faults, "F8_stale_load", s.stale_loads);
         bump(
+            &mut self.probes,
+            "observation_chunk_size_hint_differs_from_len",
+            rec.calls
+                .iter()
+                .filter(|c| matches!(&c.res, Res::Chunk { hint_bad: Some(_), .. }))
+                .count() as u64,
+        );
+        bump(
+            &mut self.faults,
+            "F4c_chunk_rest_finished_with_count_or_last",
+            rec.calls
+                .iter()
+                .filter(|c| matches!(&c.res, Res::Chunk { finish, .. } if *finish != 0))
+                .count() as u64,
+        );
+        bump(
             &mut self.faults,
             "F4b_chunk_elements_skipped_with_nth",
             rec.calls
